@@ -1717,6 +1717,10 @@ class Evaluator:
         if name in ('sum', 'min', 'max', 'abs') and args:
             return ('num', name)            # a number the templates do not depend on textually (only tested in conditions)
         if name in ('list', 'tuple') and args:
+            if isinstance(args[0], Sym) and strip_opt(args[0].typ)[0] in ('list', 'set'):
+                # a copy of a symbolic collection: the repetition over its elements
+                var = self.new_sym('x', TypeEnv.elem_type(args[0].typ))
+                return TList([RepL(Src(args[0], var, []), [var])])
             return args[0] if isinstance(args[0], TList) else TList(self.as_items(args[0]))
         if name == 'isinstance':
             if len(args) == 2 and not isinstance(args[0], (Sym, TAlt)):
